@@ -157,3 +157,112 @@ package values
 //@ ensures swapped: s.data[i] == old(s.data[j]) && s.data[j] == old(s.data[i])
 //@ ensures rest: forall(k, 0, len(s.data), k != i && k != j ==> s.data[k] == old(s.data[k]))
 //@ ensures only: onlybase("S$Val", s.data)
+
+// ---- value wrappers: lookup (C08, C18) -------------------------------------------------
+// The lookup rules of the property are the postconditions of IndexValue / PropertyValue on
+// each wrapper. Containers that are only reachable through reflect are described by the
+// abstract payloads pl_len / pl_elem / pl_mhas / pl_mget (see /verif/contracts/reflect.spec).
+
+//@ globalinv values.nilValue: self.value == nil
+
+//@ interface values.Value
+//@ method Interface pure
+//@ method Test pure
+//@ method IndexValue
+//@ requires arg: arg0 != nil
+//@ ensures nonnil: result != nil
+//@ method PropertyValue
+//@ requires arg: arg0 != nil
+//@ ensures nonnil: result != nil
+
+// every wrapper records the Go kind its methods rely on
+//@ typeinv values.arrayValue: kind(self.wrapperValue.value) == reflect.Array || kind(self.wrapperValue.value) == reflect.Slice
+//@ typeinv values.mapValue: kind(self.wrapperValue.value) == reflect.Map
+//@ typeinv values.stringValue: kind(self.wrapperValue.value) == reflect.String
+
+//@ func (values.wrapperValue).Interface
+//@ pure
+//@ props C08 C18 C01
+//@ ensures def: result == v.value
+
+//@ func (values.wrapperValue).IndexValue
+//@ props C08 C01
+//@ panics nothing
+//@ assigns nothing
+//@ ensures scalarOrNil: result != nil && result.Interface() == nil
+
+//@ func (values.wrapperValue).PropertyValue
+//@ props C08 C01
+//@ panics nothing
+//@ assigns nothing
+//@ ensures scalarOrNil: result != nil && result.Interface() == nil
+
+//@ func (values.wrapperValue).Test
+//@ pure
+//@ props C08 C10 C01
+//@ ensures def: result == (v.value != nil && v.value != box(false))
+
+// ValueOf chooses the wrapper by Go kind, so typed and generic containers share one wrapper;
+// a plain (non-Drop, non-Value, non-pointer) value is wrapped as itself.
+//@ define plainv(v Val) Bool = v != nil && !is(v, values.drop) && !is(v, values.Value) && !is(v, yaml.MapSlice) && kind(v) != reflect.Ptr
+//@ func values.ValueOf
+//@ props C08 C18 C01
+//@ panics nothing
+//@ assigns alloc F$values.dropWrapper$d, alloc F$values.dropWrapper$v, alloc F$values.dropWrapper$Once
+//@ ensures nonnil: result != nil
+//@ ensures nilIsNil: value == nil ==> result.Interface() == nil
+//@ ensures plain: plainv(value) ==> result.Interface() == value
+//@ ensures arrays: plainv(value) && (kind(value) == reflect.Array || kind(value) == reflect.Slice) ==> is(result, values.arrayValue)
+//@ ensures maps: plainv(value) && kind(value) == reflect.Map ==> is(result, values.mapValue)
+//@ ensures strings: plainv(value) && kind(value) == reflect.String ==> is(result, values.stringValue)
+//@ ensures scalars: plainv(value) && kind(value) != reflect.Array && kind(value) != reflect.Slice && kind(value) != reflect.Map && kind(value) != reflect.String && kind(value) != reflect.Struct ==> is(result, values.wrapperValue)
+//@ ensures wrapped: is(value, values.Value) && !is(value, values.drop) && !is(value, yaml.MapSlice) ==> result == value
+
+//@ globalinv values.trueValue: self.value == box(true)
+//@ globalinv values.falseValue: self.value == box(false)
+//@ globalinv values.zeroValue: self.value == box(0)
+//@ globalinv values.oneValue: self.value == box(1)
+
+// promoted methods of the embedded wrapperValue
+//@ func (values.arrayValue).Interface
+//@ pure
+//@ props C08 C18 C01
+//@ ensures def: result == v.wrapperValue.value
+//@ func (values.mapValue).Interface
+//@ pure
+//@ props C08 C18 C01
+//@ ensures def: result == v.wrapperValue.value
+//@ func (values.stringValue).Interface
+//@ pure
+//@ props C08 C18 C01
+//@ ensures def: result == v.wrapperValue.value
+//@ func (values.structValue).Interface
+//@ pure
+//@ props C08 C18 C01
+//@ ensures def: result == v.wrapperValue.value
+
+// a[i]: integer index (floats truncate), negative counts from the end, anything else is nil
+//@ func (values.arrayValue).IndexValue
+//@ props C08 C18 C01
+//@ panics nothing
+//@ requires arg: iv != nil
+//@ assigns alloc F$values.dropWrapper$d, alloc F$values.dropWrapper$v, alloc F$values.dropWrapper$Once
+//@ ensures nonnil: result != nil
+//@ ensures inRange: is(iv.Interface(), int) && 0 <= as(iv.Interface(), int) && as(iv.Interface(), int) < pl_len(av.wrapperValue.value) && plainv(pl_elem(av.wrapperValue.value, as(iv.Interface(), int))) ==> result.Interface() == pl_elem(av.wrapperValue.value, as(iv.Interface(), int))
+//@ ensures fromEnd: is(iv.Interface(), int) && as(iv.Interface(), int) < 0 && as(iv.Interface(), int) + pl_len(av.wrapperValue.value) >= 0 && plainv(pl_elem(av.wrapperValue.value, as(iv.Interface(), int) + pl_len(av.wrapperValue.value))) ==> result.Interface() == pl_elem(av.wrapperValue.value, as(iv.Interface(), int) + pl_len(av.wrapperValue.value))
+//@ ensures nilElem: is(iv.Interface(), int) && 0 <= as(iv.Interface(), int) && as(iv.Interface(), int) < pl_len(av.wrapperValue.value) && pl_elem(av.wrapperValue.value, as(iv.Interface(), int)) == nil ==> result.Interface() == nil
+//@ ensures outOfRange: is(iv.Interface(), int) && (as(iv.Interface(), int) >= pl_len(av.wrapperValue.value) || as(iv.Interface(), int) + pl_len(av.wrapperValue.value) < 0) ==> result.Interface() == nil
+//@ ensures nonNumeric: !is(iv.Interface(), int) && !is(iv.Interface(), float32) && !is(iv.Interface(), float64) ==> result.Interface() == nil
+
+// a.first, a.last, a.size; any other property of an array is nil
+//@ func (values.arrayValue).PropertyValue
+//@ props C08 C18 C01
+//@ panics nothing
+//@ requires arg: iv != nil
+//@ assigns alloc F$values.dropWrapper$d, alloc F$values.dropWrapper$v, alloc F$values.dropWrapper$Once
+//@ ensures nonnil: result != nil
+//@ ensures first: iv.Interface() == box("first", string) && pl_len(av.wrapperValue.value) > 0 && plainv(pl_elem(av.wrapperValue.value, 0)) ==> result.Interface() == pl_elem(av.wrapperValue.value, 0)
+//@ ensures last: iv.Interface() == box("last", string) && pl_len(av.wrapperValue.value) > 0 && plainv(pl_elem(av.wrapperValue.value, pl_len(av.wrapperValue.value) - 1)) ==> result.Interface() == pl_elem(av.wrapperValue.value, pl_len(av.wrapperValue.value) - 1)
+//@ ensures emptyFirstLast: (iv.Interface() == box("first", string) || iv.Interface() == box("last", string)) && pl_len(av.wrapperValue.value) == 0 ==> result.Interface() == nil
+//@ ensures size: iv.Interface() == box("size", string) ==> result.Interface() == box(pl_len(av.wrapperValue.value), int)
+//@ ensures other: iv.Interface() != box("first", string) && iv.Interface() != box("last", string) && iv.Interface() != box("size", string) ==> result.Interface() == nil
